@@ -24,6 +24,7 @@ RULE = ('Enumerations: MATCH in modes 1/omitted/-1 over strictly ascending/desce
         'Oracle: vf/xlref/c19_look (own linear scans, own wildcard matcher, xlref.core.compare order). Non-trivial = the '
         'key is not the first element (between / outside / duplicate / other type / wildcard), an index at or beyond a '
         'bound, a criterion with an operator or wildcard or a range of mixed kinds; distinct by (function, arguments, spelling).')
+RULE += (' CRITERIA-ARRAY: ordered pairs (and a,b,a triples) of 16 criteria of different kinds x 3 ranges holding numeric text x COUNTIF/SUMIF/AVERAGEIF: equal element by element to the single-criterion results.')
 ASSUMPTIONS = [
     'approximate modes are asserted only on strictly sorted vectors of one kind (plain lowercase/alphanumeric text); '
     'a key of another kind gives #N/A',
